@@ -22,6 +22,7 @@ import (
 	"github.com/shopspring/decimal"
 	"net/http"
 	"os"
+	"path/filepath"
 	"sort"
 	"strings"
 	"time"
@@ -106,15 +107,16 @@ func c08Assets() []byte {
 }
 
 type scenario struct {
-	h    string
-	site string
-	run  func() string
+	h       string
+	site    string
+	run     func() string
+	maxRuns int // 0 = as often as asked
 }
 
 func c08Scenarios() []scenario {
 	env := envs.NewBuilder().Build()
 	var sc []scenario
-	add := func(h, site string, f func() string) { sc = append(sc, scenario{h, site, f}) }
+	add := func(h, site string, f func() string) { sc = append(sc, scenario{h: h, site: site, run: f}) }
 
 	// ---- inspection of a flow with several translation languages
 	add("inspect/fresh-flow", "localization.Languages/Enumerate, issues.Check, inspect.templates", func() string {
@@ -316,6 +318,11 @@ func c08Scenarios() []scenario {
 			})
 		}
 	}
+	// ---- what a finished call handed back does not change afterwards: every action definition of flows/actions/testdata (as
+	// it is, with each of its templates made contact-dependent, and with its lists cut / padded to three items) runs for one
+	// contact; then the same assets serve a session of ANOTHER contact; the first session and its events, marshalled before
+	// (even executions) and after that (odd executions), are the same history and must be the same output
+	sc = append(sc, actionPairScenarios()...)
 	// ---- a message built from a channel template: variables whose values look like placeholders, two media variables
 	add("engine/template-preview", "TemplateTranslation.Preview", func() string {
 		resetGenerators(3)
@@ -644,7 +651,7 @@ func c08Det(args []string) error {
 		if *only != "" && s.h != *only {
 			continue
 		}
-		for r := 0; r < *repeats; r++ {
+		for r := 0; r < *repeats && (s.maxRuns == 0 || r < s.maxRuns); r++ {
 			var outp string
 			func() {
 				defer func() {
@@ -699,4 +706,164 @@ func (r *routeRequestor) Do(c *http.Client, req *http.Request) (*http.Response, 
 		}
 	}
 	return httpx.NewMockResponse(200, nil, []byte(`{}`)).Make(req), nil
+}
+
+const c08Bob = `{"uuid": "b0b0b0b0-3bb9-4d5a-b822-c9d86f5d8e4f", "id": 4321, "name": "Bob Marley", "language": "spa", "status": "active", "created_on": "2017-02-03T04:05:06Z",
+ "urns": ["tel:+12065552222", "twitterid:987654#bob"], "groups": [], "fields": {"gender": {"text": "Female"}, "age": {"text": "77", "number": 77}}}`
+
+func resizeLists(action string) string {
+	var a map[string]any
+	if json.Unmarshal([]byte(action), &a) != nil {
+		return action
+	}
+	changed := false
+	for k, v := range a {
+		l, ok := v.([]any)
+		if !ok || len(l) == 0 || len(l) == 3 {
+			continue
+		}
+		nl := []any{}
+		for i := 0; i < 3; i++ {
+			e := l[i%len(l)]
+			if str, isStr := e.(string); isStr && i >= len(l) {
+				e = str + fmt.Sprint(i) // a URN, an attachment, a text: still one with a digit more
+			}
+			nl = append(nl, e)
+		}
+		a[k] = nl
+		changed = true
+	}
+	if !changed {
+		return action
+	}
+	return string(mustJSON(a))
+}
+
+func actionPairScenarios() []scenario {
+	var out []scenario
+	dir := "/repo/flows/actions/testdata"
+	assetsJSON, err := os.ReadFile(filepath.Join(dir, "_assets.json"))
+	if err != nil {
+		return nil
+	}
+	files, _ := filepath.Glob(filepath.Join(dir, "*.json"))
+	sort.Strings(files)
+	perContact := []string{"@contact.uuid", "@urns.tel", "@(contact.name & \" \" & fields.gender)"}
+	for _, fn := range files {
+		if strings.HasPrefix(filepath.Base(fn), "_") {
+			continue
+		}
+		data, _ := os.ReadFile(fn)
+		var tests []typeTest
+		if json.Unmarshal(data, &tests) != nil {
+			continue
+		}
+		for ti, tc := range tests {
+			if tc.ReadError != "" {
+				continue
+			}
+			tc := tc
+			flowIndex, fu := 0, assets.FlowUUID("bead76f5-dac4-4c9d-996c-c62b326e8c0a")
+			if tc.InFlowType == "voice" {
+				flowIndex, fu = 1, assets.FlowUUID("7a84463d-d209-4d3e-a0ff-79f977cd7bd0")
+			}
+			variants := []string{string(tc.Action)}
+			probe := test.JSONReplace(assetsJSON, []string{"flows", fmt.Sprintf("[%d]", flowIndex), "nodes", "[0]", "actions"}, []byte("["+string(tc.Action)+"]"))
+			if psa, err := test.CreateSessionAssets(probe, ""); err == nil {
+				if pf, err := psa.Flows().Get(fu); err == nil {
+					seen := map[string]bool{}
+					k := 0
+					for _, t := range pf.ExtractTemplates() {
+						q := string(mustJSON(t))
+						if seen[q] || !strings.Contains(string(tc.Action), q) {
+							continue
+						}
+						seen[q] = true
+						variants = append(variants, strings.Replace(string(tc.Action), q, string(mustJSON(perContact[k%len(perContact)])), 1))
+						k++
+					}
+				}
+			}
+			for _, v := range append([]string{}, variants...) {
+				if r := resizeLists(v); r != v {
+					variants = append(variants, r)
+				}
+			}
+			for vi, action := range variants {
+				action := action
+				adata := test.JSONReplace(assetsJSON, []string{"flows", fmt.Sprintf("[%d]", flowIndex), "nodes", "[0]", "actions"}, []byte("["+action+"]"))
+				if tc.Localization != nil {
+					adata = test.JSONReplace(adata, []string{"flows", fmt.Sprintf("[%d]", flowIndex), "localization"}, tc.Localization)
+				}
+				nrun := 0
+				h := fmt.Sprintf("action-then-another-contact/%s#%d/v%d", strings.TrimPrefix(fn, "/repo/"), ti, vi)
+				out = append(out, scenario{h: h, site: "slices / objects of the shared definition handed out in events", maxRuns: 2, run: func() string {
+					nrun++
+					resetGenerators(5)
+					smtpx.SetSender(okSender{})
+					var mocks *httpx.MockRequestor
+					if tc.HTTPMocks != nil {
+						mocks = tc.HTTPMocks.Clone()
+					}
+					httpx.SetRequestor(&offlineRequestor{mocks: mocks})
+					defer httpx.SetRequestor(httpx.DefaultRequestor)
+					sa, err := test.CreateSessionAssets(adata, "")
+					if err != nil {
+						return "ERR assets"
+					}
+					flow, err := sa.Flows().Get(fu)
+					if err != nil {
+						return "ERR flow"
+					}
+					resetGenerators(5)
+					start := func(cj []byte) (flows.Session, flows.Sprint) {
+						var cm map[string]any
+						json.Unmarshal(cj, &cm)
+						t := M{"type": "manual", "flow": M{"uuid": string(fu), "name": flow.Name()}, "contact": cm, "triggered_on": "2018-10-18T14:20:00Z",
+							"environment": M{"allowed_languages": []string{"eng", "spa"}, "default_country": "RW", "date_format": "YYYY-MM-DD", "time_format": "tt:mm", "timezone": "UTC"}}
+						if flow.Type() == flows.FlowTypeVoice {
+							t["call"] = M{"channel": M{"uuid": "57f1078f-88aa-46f4-a59a-948a5739c03d", "name": "Android"}, "urn": "tel:+12065551212"}
+						}
+						if !(tc.NoInput || tc.AsBatch) {
+							t["type"] = "msg"
+							t["msg"] = M{"uuid": "aa90ce99-3b4d-44ba-b0ca-79e63d9ed842", "urn": "tel:+12065551212", "text": "Hi everybody"}
+						}
+						trig, err := readTrigger(sa, mustJSON(t))
+						if err != nil {
+							return nil, nil
+						}
+						s, sp, err := test.NewEngine().NewSession(sa, trig)
+						if err != nil {
+							return nil, nil
+						}
+						return s, sp
+					}
+					render := func(s flows.Session, sp flows.Sprint) string {
+						var b strings.Builder
+						for _, e := range sp.Events() {
+							b.Write(jsonx.MustMarshal(e))
+							b.WriteByte('\n')
+						}
+						b.Write(sessionJSON(s))
+						return b.String()
+					}
+					cj := []byte(c20Contact)
+					if tc.Contact != nil {
+						cj = tc.Contact
+					}
+					s, sp := start(cj)
+					if s == nil {
+						return "ERR start"
+					}
+					before := render(s, sp)
+					if nrun%2 == 1 {
+						return before
+					}
+					start([]byte(c08Bob)) // the unrelated session over the same assets
+					return render(s, sp)
+				}})
+			}
+		}
+	}
+	return out
 }
